@@ -4,7 +4,7 @@ TIER="${1:-quick}"
 cd "$(dirname "$0")/.."
 for i in 01 02 03 04 05 06 07 08 09 10 11 12 13 14 15 16 17 18 19 20; do
   s=$(date +%s)
-  out=$(./check C$i --tier "$TIER" 2>&1); rc=$?
+  out=$(timeout "${CHECK_TIMEOUT:-1800}" ./check C$i --tier "$TIER" 2>&1); rc=$?
   e=$(( $(date +%s) - s ))
   echo "C$i rc=$rc ${e}s  $(printf '%s\n' "$out" | grep -c '^VIOLATION') violations, $(printf '%s\n' "$out" | grep -c '^KNOWN-FINDING') known; $(printf '%s\n' "$out" | tail -1 | cut -c1-160)"
   [ $rc -ne 0 ] && printf '%s\n' "$out" | grep -v '^\[C..\]   ' | tail -15
